@@ -84,6 +84,9 @@ pub use model::Model;
 pub use predictor::Predictor;
 pub use sentence::{CharacterBoundary, CharacterType, Sentence, Token, TokenIterator};
 
+#[cfg(feature = "verif-hooks")]
+pub use sentence::VerifSentenceState;
+
 #[cfg(feature = "train")]
 pub use trainer::{SolverType, Trainer};
 
